@@ -532,18 +532,21 @@ impl Litep2p {
     pub async fn next_event(&mut self) -> Option<Litep2pEvent> {
         loop {
             match self.transport_manager.next().await? {
-                TransportEvent::ConnectionEstablished { peer, endpoint, .. } =>
-                    return Some(Litep2pEvent::ConnectionEstablished { peer, endpoint }),
+                TransportEvent::ConnectionEstablished { peer, endpoint, .. } => {
+                    return Some(Litep2pEvent::ConnectionEstablished { peer, endpoint })
+                }
                 TransportEvent::ConnectionClosed {
                     peer,
                     connection_id,
-                } =>
+                } => {
                     return Some(Litep2pEvent::ConnectionClosed {
                         peer,
                         connection_id,
-                    }),
-                TransportEvent::DialFailure { address, error, .. } =>
-                    return Some(Litep2pEvent::DialFailure { address, error }),
+                    })
+                }
+                TransportEvent::DialFailure { address, error, .. } => {
+                    return Some(Litep2pEvent::DialFailure { address, error })
+                }
 
                 TransportEvent::OpenFailure { errors, .. } => {
                     return Some(Litep2pEvent::ListDialFailures { errors });
